@@ -166,6 +166,8 @@ def tup(r):
 def run(ctx):
     quick = ctx.tier == "quick"
     from props import C37_share
+    if os.environ.get("C37_NO_SHARE") == "1":           # timing hook only
+        return run_old(ctx, quick)
     share = C37_share.Share(ctx)          # builds its modules in a background thread
     try:
         run_old(ctx, quick)
